@@ -95,6 +95,7 @@ pub struct Backend {
     pub slow_exact: Mutex<Option<(String, u64, u64)>>, // C01/C02: a simple query whose text IS this string is answered after ms, for the next `count` occurrences (the health check `;` carries no directive)
     pub busy: Mutex<BTreeMap<u64, String>>, // C10: session id -> the statement it is executing right now (reported in every `cancel` event)
     pub gates: Mutex<std::collections::HashSet<String>>, // C10: opened gates; a statement with /*mock:gate=NAME*/ is answered only after NAME was opened
+    pub key_scheme: Mutex<String>, // C10: which BackendKeyData the sessions announce: "" (small positive) | neg | zero | min | max
     pub refuse_new: std::sync::atomic::AtomicBool, // C10: while set the listener is gone (connect() is refused by the kernel, the port stays reserved) but ESTABLISHED sessions keep working
     pub listening: std::sync::atomic::AtomicBool, // C10: whether the accept loop currently has a listening socket
     pub reply_segs: Mutex<Vec<usize>>, // C20: cut EVERY flush of this backend into TCP writes at these offsets (like the segs= directive, but per backend)
@@ -1023,8 +1024,9 @@ async fn session(be: Arc<Backend>, mut stream: TcpStream) {
         put_msg(&mut out, b'S', &b);
     }
     let mut k = BytesMut::new();
-    k.put_i32(id as i32 + 1000);
-    k.put_i32((id as i32 + 1000) * 7 + 13);
+    let (kpid, kkey) = be.session_keys(id); // C10: key_scheme (default: 1000+id, 7*(1000+id)+13)
+    k.put_i32(kpid);
+    k.put_i32(kkey);
     put_msg(&mut out, b'K', &k);
     put_msg(&mut out, b'Z', &[b'I']);
     if stream.write_all(&out).await.is_err() {
@@ -1048,7 +1050,7 @@ async fn session(be: Arc<Backend>, mut stream: TcpStream) {
         role_out: false,
     };
     let mut c = Conn { be: be.clone(), s, stream, out: BytesMut::new(), c03: C03Script::default(), c07_mid: 0 };
-    log_event(&be.log, json!({"who": be.name, "conn": id, "ev": "ready", "pid": id as i32 + 1000, "key": (id as i32 + 1000) * 7 + 13}));
+    log_event(&be.log, json!({"who": be.name, "conn": id, "ev": "ready", "pid": kpid, "key": kkey}));
     c.publish_state();
     {
         let n = be.open_conns.lock().len() as u64;
@@ -1559,6 +1561,7 @@ impl Backend {
             reset_epoch: AtomicU64::new(0),
             busy: Mutex::new(BTreeMap::new()),
             gates: Mutex::new(std::collections::HashSet::new()),
+            key_scheme: Mutex::new(String::new()),
             refuse_new: std::sync::atomic::AtomicBool::new(false),
             listening: std::sync::atomic::AtomicBool::new(true),
             reply_segs: Mutex::new(Vec::new()),
@@ -1617,6 +1620,19 @@ impl Backend {
             }
         });
         be
+    }
+
+    /// C10: (process id, secret) announced by session `id` in BackendKeyData.  Poolers in front of PostgreSQL
+    /// hand out arbitrary i32 values: negative, zero, extreme.  Sessions of one backend stay distinguishable.
+    pub fn session_keys(&self, id: u64) -> (i32, i32) {
+        let n = id as i32 + 1000;
+        match self.key_scheme.lock().as_str() {
+            "neg" => (-n, -(n * 7 + 13)),
+            "zero" => (0, n),
+            "min" => (i32::MIN + id as i32, i32::MAX - id as i32),
+            "max" => (i32::MAX - id as i32, i32::MIN + id as i32),
+            _ => (n, n * 7 + 13),
+        }
     }
 
     pub fn set_mode(&self, m: &str) {
